@@ -65,6 +65,14 @@ def points(tier: str) -> List[Dict[str, Any]]:
                         missing = [k for k in KINDS if st[k] == "absent"]
                         pts.append({"cache": st, "timeout": 3000, "arrive": {k: arr for k in missing}, "forced": forced,
                                     "extra": False, "prior": {"timeout": prior_timeout, "gap": gap}})
+    # the missing records arrive together in one datagram, in every order (an address may precede the SRV record naming its host)
+    for n_ in (2, 3, 4):
+        for order in itertools.permutations(KINDS, n_):
+            if "srv" not in order or not ({"a", "aaaa"} & set(order)):
+                continue
+            for timeout in (300, 3000):
+                pts.append({"cache": {k: "absent" for k in KINDS}, "timeout": timeout, "bundle": list(order),
+                            "arrive": {k: (50 if k in order else "never") for k in KINDS}, "forced": None, "extra": False})
     # a superseded copy next to the current one: the cache holds a fresh record and, learnt *after* it, another record of the
     # same name and type with other rdata that has run out but is not purged yet (what a changed-and-changed-back TXT or SRV
     # leaves behind for up to ten seconds)
@@ -156,7 +164,12 @@ def run_point(p: Dict[str, Any], verbose: bool = False) -> Tuple[Optional[Dict[s
         for k in KINDS:
             if st[k] == "expired" and not any(r.is_expired(w.now_ms) for r in zc.cache.entries_with_name(OLD[k][1])):
                 raise HarnessError("expired-unpurged state not established")
+        if p.get("bundle"):
+            w.loop.call_at((t0 + 50) / 1000, w.net.inject, host, wire.encode(99, 0x8400, (), [GOOD[k] for k in p["bundle"]]),
+                           ("10.0.0.50", 5353))
         for k, off in arrive.items():
+            if p.get("bundle"):
+                break
             if off != "never":
                 n += 1
                 w.loop.call_at((t0 + off) / 1000, w.net.inject, host, wire.encode(100 + n, 0x8400, (), [GOOD[k]]),
